@@ -84,9 +84,19 @@ var c02 struct {
 	due      sdkmath.Int                       // outstanding rewards / commission of the named account
 	paid     int
 	acted    []string // bech32 account the module was asked to act for, per call
+	journal  *zz.Journal // when set, the Cosmos-side state above follows the context's store branching (see zz.Journal)
+	run      struct {
+		ctx    sdk.Context
+		db     *statedb.StateDB
+		method *abi.Method
+		args   []interface{}
+	}
 }
 
-func c02Pay(beneficiary sdk.AccAddress) (sdk.Coins, error) {
+func c02Pay(ctx sdk.Context, beneficiary sdk.AccAddress) (sdk.Coins, error) {
+	if c02.journal != nil {
+		c02.journal.Sync(ctx)
+	}
 	who := common.BytesToAddress(beneficiary.Bytes())
 	to, ok := c02.withdraw[who]
 	if !ok {
@@ -95,10 +105,20 @@ func c02Pay(beneficiary sdk.AccAddress) (sdk.Coins, error) {
 	if c02.bank.get(c02Pool).LT(c02.due) {
 		return nil, errors.New("pool underfunded")
 	}
-	c02.bank.bal[c02Pool] = c02.bank.get(c02Pool).Sub(c02.due)
-	c02.bank.bal[to] = c02.bank.get(to).Add(c02.due)
-	c02.paid++
-	c02.acted = append(c02.acted, beneficiary.String())
+	due := c02.due
+	debit := func() { c02.bank.bal[c02Pool] = c02.bank.get(c02Pool).Sub(due) }
+	credit := func() {
+		c02.bank.bal[to] = c02.bank.get(to).Add(due)
+		c02.paid++
+		c02.acted = append(c02.acted, beneficiary.String())
+	}
+	if c02.journal != nil { // two store writes: the gas meter may run out at either
+		c02.journal.Write(ctx, debit)
+		c02.journal.Write(ctx, credit)
+	} else {
+		debit()
+		credit()
+	}
 	return sdk.NewCoins(sdk.NewCoin("aISLM", c02.due)), nil
 }
 
@@ -113,12 +133,19 @@ func c02GetWithdrawAddr(k distributionkeeper.Keeper, ctx sdk.Context, delAddr sd
 type c02Srv struct{}
 
 func (c02Srv) SetWithdrawAddress(ctx context.Context, m *distributiontypes.MsgSetWithdrawAddress) (*distributiontypes.MsgSetWithdrawAddressResponse, error) {
-	c02.acted = append(c02.acted, m.DelegatorAddress)
-	c02.withdraw[common.BytesToAddress(sdk.MustAccAddressFromBech32(m.DelegatorAddress).Bytes())] = common.BytesToAddress(sdk.MustAccAddressFromBech32(m.WithdrawAddress).Bytes())
+	set := func() {
+		c02.acted = append(c02.acted, m.DelegatorAddress)
+		c02.withdraw[common.BytesToAddress(sdk.MustAccAddressFromBech32(m.DelegatorAddress).Bytes())] = common.BytesToAddress(sdk.MustAccAddressFromBech32(m.WithdrawAddress).Bytes())
+	}
+	if c02.journal != nil {
+		c02.journal.Write(sdk.UnwrapSDKContext(ctx), set)
+	} else {
+		set()
+	}
 	return &distributiontypes.MsgSetWithdrawAddressResponse{}, nil
 }
 func (c02Srv) WithdrawDelegatorReward(ctx context.Context, m *distributiontypes.MsgWithdrawDelegatorReward) (*distributiontypes.MsgWithdrawDelegatorRewardResponse, error) {
-	coins, err := c02Pay(sdk.MustAccAddressFromBech32(m.DelegatorAddress))
+	coins, err := c02Pay(sdk.UnwrapSDKContext(ctx), sdk.MustAccAddressFromBech32(m.DelegatorAddress))
 	if err != nil {
 		return nil, err
 	}
@@ -129,7 +156,7 @@ func (c02Srv) WithdrawValidatorCommission(ctx context.Context, m *distributionty
 	if err != nil {
 		return nil, err
 	}
-	coins, err := c02Pay(sdk.AccAddress(va))
+	coins, err := c02Pay(sdk.UnwrapSDKContext(ctx), sdk.AccAddress(va))
 	if err != nil {
 		return nil, err
 	}
@@ -147,7 +174,7 @@ func (c02Srv) CommunityPoolSpend(context.Context, *distributiontypes.MsgCommunit
 
 func c02NewMsgServer(k distributionkeeper.Keeper) distributiontypes.MsgServer { return c02Srv{} }
 func c02WithdrawDelegationRewards(k distributionkeeper.Keeper, ctx sdk.Context, delAddr sdk.AccAddress, valAddr sdk.ValAddress) (sdk.Coins, error) {
-	return c02Pay(delAddr)
+	return c02Pay(ctx, delAddr)
 }
 func c02GetDelegatorValidators(k sdkstakingkeeper.Keeper, ctx sdk.Context, delegatorAddr sdk.AccAddress, maxRetrieve uint32) stakingtypes.Validators {
 	return stakingtypes.Validators{{OperatorAddress: c02Val}}
